@@ -1,6 +1,7 @@
 import IxpeVerif.Model.IrfName
 import IxpeVerif.Gen.Caldb
 import IxpeVerif.Gen.IrfNameGen
+import IxpeVerif.Gen.Loaders
 /-!
 # C12 — every shipped response file is reachable, and a loader never returns another flavour (core Lean only)
 
@@ -206,6 +207,53 @@ theorem gen_gray_type_refused (base intent typ : List Nat) (du version : Nat)
   simp only [Gen.Str.irf_file_name]
   simp [h']
   rfl
+
+/-! ### T-tie of the loaders: `irf_file_path`, `_load_irf_base`, `load_arf … load_rmf`, `xIRFSet.__init__`, `load_irf_set` regenerated with every call
+resolved against the signature of the callee (`Gen/Loaders.lean`, translator/fwdtrans.py) -/
+
+def sVign : List Nat := [118, 105, 103, 110]
+def sPsf : List Nat := [112, 115, 102]
+
+/-- **what `load_irf_set` asks for, on the current source**: the effective area and the modulation response are requested with the weighting and
+gray-filter flags of the call, the other four members with neither; all six with the name and the detector unit of the call -/
+theorem gen_set_members (base intent : List Nat) (version du : Nat) (simple gray : Bool) :
+    let s := Gen.Fwd.load_irf_set base intent version du simple gray
+    s.aeff = Gen.Str.irf_file_name base du sArf intent version simple gray ∧
+    s.mrf = Gen.Str.irf_file_name base du sMrf intent version simple gray ∧
+    s.vign = Gen.Str.irf_file_name base du sVign intent version false false ∧
+    s.psf = Gen.Str.irf_file_name base du sPsf intent version false false ∧
+    s.modf = Gen.Str.irf_file_name base du sModf intent version false false ∧
+    s.edisp = Gen.Str.irf_file_name base du sRmf intent version false false :=
+  ⟨rfl, rfl, rfl, rfl, rfl, rfl⟩
+
+/-- the stand-alone loaders ask for the same files as the set -/
+theorem gen_loaders_agree_with_set (base intent : List Nat) (version du : Nat) (simple gray : Bool) :
+    Gen.Fwd.load_arf base intent version du simple gray = (Gen.Fwd.load_irf_set base intent version du simple gray).aeff ∧
+    Gen.Fwd.load_mrf base intent version du simple gray = (Gen.Fwd.load_irf_set base intent version du simple gray).mrf ∧
+    Gen.Fwd.load_psf base intent version du = (Gen.Fwd.load_irf_set base intent version du simple gray).psf ∧
+    Gen.Fwd.load_vign base intent version du = (Gen.Fwd.load_irf_set base intent version du simple gray).vign :=
+  ⟨rfl, rfl, rfl, rfl⟩
+
+/-- **a set never mixes flavours, on the current source**: for every shipped name, detector unit and flags, the effective-area (resp. modulation
+response) file of the set, when there is one, carries the SIMPLE weighting and gray-filter marks exactly as requested and lives in the folder of its
+type -/
+theorem gen_set_flavour_faithful : ∀ c ∈ allCfgs, (c.typ = sArf ∨ c.typ = sMrf) → ∀ f d,
+    (if c.typ = sArf then (Gen.Fwd.load_irf_set c.base c.intent c.version c.du c.simple c.gray).aeff
+      else (Gen.Fwd.load_irf_set c.base c.intent c.version c.du c.simple c.gray).mrf) = .ok f → folderOf c.typ = some d →
+    hasInfix sSimple f = c.simple ∧ hasInfix [103, 114, 97, 121] f = c.gray := by
+  intro c hc ht f d hf hd
+  have hgen : Gen.Str.irf_file_name c.base c.du c.typ c.intent c.version c.simple c.gray = .ok f := by
+    rcases ht with h | h
+    · simpa [h, Gen.Fwd.load_irf_set, Gen.Fwd.irf_set, Gen.Fwd.load_arf, Gen.Fwd.load_irf_base, Gen.Fwd.irf_file_path, sArf] using hf
+    · have hne : ¬ (c.typ = sArf) := by rw [h]; decide
+      rw [if_neg hne] at hf
+      simpa [h, Gen.Fwd.load_irf_set, Gen.Fwd.irf_set, Gen.Fwd.load_mrf, Gen.Fwd.load_irf_base, Gen.Fwd.irf_file_path, sMrf] using hf
+  have hp : genPath c = some (d, f) := by simp [genPath, hgen, hd]
+  have := gen_flavour_faithful c hc (d, f) hp
+  exact ⟨this.1, this.2.1⟩
+
+example : (Gen.Fwd.load_irf_set [105,120,112,101] ([111,98,115,115,105,109,50,48,50,52,48,49,48,49] ++ sAlpha) 13 2 true true).mrf.toOption.map (hasInfix (sAlpha ++ sSimple ++ sGray))
+    = some true := by decide +kernel
 
 example : (Gen.Str.irf_file_name [105,120,112,101] 2 sMrf [111,98,115,115,105,109] 12 false false).toOption
     = some [105,120,112,101,95,100,50,95,111,98,115,115,105,109,95,118,48,49,50,46,109,114,102] := by decide +kernel
